@@ -5,15 +5,22 @@
 (* <= MaxChunks reads chosen nondeterministically (EVERY split), the server   *)
 (* runs its decode loop after every read.  Decode steps are the server's own  *)
 (* reaction, so scripts (hist) hold the client's steps only.                  *)
-(* Live = TRUE: the same behaviours as seen from a client socket.             *)
+(* Live = TRUE: the same behaviours as seen from a client socket, plus (BigN  *)
+(* > 0) connections that start with a BigN-byte ECHO followed by one small    *)
+(* frame, written in <= BigChunks pieces cut inside the payload and at every  *)
+(* byte of the follower - the big frame stays run-length encoded throughout.  *)
 (* Legacy (self-tests) may contain "decode" / "encode": the pinned tree's      *)
 (* header-eating decoder / raw error text.                                    *)
 EXTENDS Resp, TLC, Json
 
-CONSTANTS MaxFrames, MaxChunks, MaxChunks1, Live, Legacy, Univ, Lemmas
+CONSTANTS MaxFrames, MaxChunks, MaxChunks1, Live, Legacy, Univ, Lemmas,
+          BigN,        \* payload length of the big first frame of the Big* behaviours (0: none)
+          BigUniv,     \* frames (indices as Univ) that may follow the big frame
+          BigCuts,     \* offsets inside the big payload at which the client may cut a write
+          BigChunks    \* a big stream is written in at most this many pieces
 
 VARIABLE hist
-vars == <<wire, buf, sent, decoded, out, st, hist>>
+vars == <<wire, buf, sent, decoded, out, st, big, hist>>
 
 B(x) == Bulk(x)
 Vals == <<
@@ -47,7 +54,7 @@ DoPlan ==
     /\ st = "idle" /\ hist = <<>>
     /\ Len(ParseAll(wire).vs) < MaxFrames
     /\ \E w \in Wires : wire' = wire \o w
-    /\ UNCHANGED <<buf, sent, decoded, out, st, hist>>
+    /\ UNCHANGED <<buf, sent, decoded, out, st, big, hist>>
 DoOpen ==
     /\ hist = <<>> /\ wire # <<>>
     /\ Open(wire, Live)
@@ -81,13 +88,48 @@ DoLiveClose ==
     /\ LiveClose(Flat([i \in 1..Len(sent) |-> Encode(ModelReply(sent[i]))]))
     /\ H([op |-> "LiveClose"])
 
+\* ---- a big ECHO (BigN copies of "a") followed by one small frame.  The client may cut its writes
+\* inside the header, at the BigCuts offsets of the payload, and at EVERY byte of the CR LF that ends
+\* the big frame and of the follower (in particular inside the follower's first line).
+BigC == 97
+DoBigOpen ==
+    /\ BigN > 0 /\ hist = <<>> /\ wire = <<>>
+    /\ \E i \in BigUniv :
+          /\ BigOpen(BigC, BigN, AllWires[i])
+          /\ H([op |-> "BigOpen", c |-> BigC, n |-> BigN, wire |-> AllWires[i]])
+BigLeft == Len(big.a) + big.run + Len(wire)
+\* offsets (from the start of the stream) after which a write may end
+BigCutSet ==
+    LET ha == Len(BigHeader(big.n))
+        tl == Len(hist[1].wire) + 2 IN
+    {2} \cup {ha + p : p \in BigCuts} \cup {ha + big.n + j : j \in 0..tl - 1} \cup {ha + big.n + tl}
+DoBigSend ==
+    /\ st = "live" /\ big.on /\ BigLeft > 0
+    /\ LET total == Len(BigHeader(big.n)) + big.n + Len(hist[1].wire) + 2
+           pos == total - BigLeft IN
+       \E e \in BigCutSet :
+          /\ e > pos
+          /\ Len(hist) < BigChunks \/ e = total
+          /\ LET k == e - pos
+                 np == IF k < Len(big.a) THEN k ELSE Len(big.a)
+                 nr == IF k - np < big.run THEN k - np ELSE big.run
+                 ch == [pre |-> SubSeq(big.a, 1, np), run |-> nr, post |-> SubSeq(wire, 1, k - np - nr)] IN
+             /\ BigSend(ch)
+             /\ H([op |-> "BigSend", pre |-> ch.pre, run |-> ch.run, post |-> ch.post])
+DoBigClose ==
+    /\ st = "live" /\ big.on
+    /\ BigClose([head |-> <<DOLLAR>> \o Dec(big.n) \o CRLF, c |-> big.c, run |-> big.n,
+                 rest |-> CRLF \o Flat([i \in 1..Len(sent) - 1 |-> Encode(ModelReply(sent[i + 1]))])])
+    /\ H([op |-> "BigClose"])
+
 Next == DoPlan \/ DoOpen \/ DoDeliver \/ DoDecode \/ DoEnd               \* the read loop driven in process (Live = FALSE)
 NextLive == DoPlan \/ DoOpen \/ DoLiveSend \/ DoLiveClose                 \* a client socket of a live server (Live = TRUE)
+              \/ DoBigOpen \/ DoBigSend \/ DoBigClose
 Spec == Init /\ [][Next]_vars
 SpecLive == Init /\ [][NextLive]_vars
 
 \* every behaviour that starts must be able to finish: a connection is never stuck
-NoStuck == (st \in {"reading", "decoding", "live"}) => ENABLED (DoDeliver \/ DoDecode \/ DoEnd \/ DoLiveSend \/ DoLiveClose)
+NoStuck == (st \in {"reading", "decoding", "live"}) => ENABLED (DoDeliver \/ DoDecode \/ DoEnd \/ DoLiveSend \/ DoLiveClose \/ DoBigSend \/ DoBigClose)
 
 Done == st = "idle" /\ hist # <<>>
 EmitEnd == (st # "idle" /\ st' = "idle") => PrintT(<<"SCRIPT", ToJson(hist')>>)
